@@ -21,6 +21,8 @@ def lit_text(v, rng):
         return "true" if v["b"] else "false"
     if t == "str":
         return rng.choice(["'%s'", '"%s"']) % v["s"]
+    if t == "type":
+        return rng.choice(["", "", "saturated "]) + v["s"]
     n, d = v["n"], v["d"]
     if d == 1:
         forms = [str(n), "0x%x" % n, "0X%X" % n, "0b" + bin(n)[2:], "0o" + oct(n)[2:]]
@@ -82,6 +84,8 @@ def parse_value(text: str):
         return {"t": "set", "e": frozenset(_freeze(parse_value(p)) for p in parts)}
     if text[:1] in "'\"":
         return {"t": "str", "s": pyast.literal_eval(text)}
+    if text.startswith(("saturated ", "truncated ")):
+        return {"t": "type", "s": text.split(" ", 1)[1]}
     f = Fraction(text)
     return {"t": "rat", "n": f.numerator, "d": f.denominator}
 
@@ -203,8 +207,8 @@ def run_cfg(ctx, cfg, mod):
 def run(ctx):
     ctx.rule = ("TLC enumerates (grid) every ordered pair of the 17 binary operators in both nestings over operand triples "
                 "from {2,3,7,true,false} plus 27 unary / power / attribute mixes, (kinds) every operator with every ordered "
-                "pair of 13 operand kinds (integer, zero, fraction, negative, boolean, string, rational sets, string set, set "
-                "of sets, empty and heterogeneous set literals), (trees) type-directed trees of depth <= 2; each state is "
+                "pair of 20 operand kinds (integer, zero, fraction, negative, boolean, string, rational sets, string set, set "
+                "of sets (singleton, chain, incomparable), sets of strings / booleans, a data type and sets of data types, empty and heterogeneous set literals), (trees) type-directed trees of depth <= 2; each state is "
                 "rendered three ways (minimal parentheses with random blanks and literal forms, full parentheses, compact) "
                 "and read. Non-trivial = expected value is not an error; cases beyond 32-bit magnitudes / real exponents / "
                 "negative bitwise operands are counted as skipped, not as passes; distinct by hash of the AST")
